@@ -76,7 +76,8 @@ type (
 	}
 )
 
-func (v *NumVal) IsInt() bool { return v.V == math.Trunc(v.V) }
+// IsInt 整数且在 int64 范围内 (超出范围 Int() 会溢出成 math.MinInt64)
+func (v *NumVal) IsInt() bool { return v.V == math.Trunc(v.V) && math.Abs(v.V) < 1<<63 }
 func (v *NumVal) Int() int64  { return int64(v.V) }
 
 func (v *Val) Bool() *BoolVal   { return (*BoolVal)(unsafe.Pointer(v)) }
